@@ -165,3 +165,56 @@ package py
 
 //@ func (*Range).M__len__(r) (res, err)
 //@   ensures val: err == nil && den(res) == r.Length
+
+// ---- list mutation through aliases (C17): whole-view postconditions; results that must be fresh are fresh ----
+
+//@ spec isList(x Object) bool = is(x, *List)
+
+// list.append (first function literal of py/list.go)
+//@ func @list.go:1(self, args) (r, err)
+//@   requires self: is(self, *List)
+//@   modifies self.(*List).Items, mem(self.(*List).Items)
+//@   ensures arity: len(args) != 1 ==> raisesExc(err, TypeError) && self.(*List).Items == old(self.(*List).Items)
+//@   ensures len: len(args) == 1 ==> err == nil && len(self.(*List).Items) == len(old(self.(*List).Items)) + 1
+//@   ensures kept: len(args) == 1 ==> forall k in [0, len(old(self.(*List).Items))): self.(*List).Items[k] == old(self.(*List).Items[k])
+//@   ensures last: len(args) == 1 ==> self.(*List).Items[len(old(self.(*List).Items))] == old(args[0])
+
+// list.extend (second function literal of py/list.go): every iterable must be accepted
+//@ func @list.go:2(self, args) (r, err)
+//@   requires self: is(self, *List)
+//@   requires argsnn: forall k in [0, len(args)): args[k] != nil
+//@   modifies *
+//@   ensures listarg: len(args) == 1 && is(old(args[0]), *List) && old(args[0]).(*List) != self.(*List) ==> err == nil && len(self.(*List).Items) == len(old(self.(*List).Items)) + len(old(args[0].(*List).Items))
+//@   ensures iterated: len(args) == 1 && !is(old(args[0]), *List) ==> opcnt[48] == 1
+//@   ensures tuplearg: len(args) == 1 && is(old(args[0]), Tuple) ==> err == nil
+
+//@ func (*List).Append(l, item)
+//@   modifies l.Items, mem(l.Items)
+//@   ensures len: len(l.Items) == len(old(l.Items)) + 1
+//@   ensures kept: forall k in [0, len(old(l.Items))): l.Items[k] == old(l.Items[k])
+//@   ensures last: l.Items[len(old(l.Items))] == item
+
+//@ func NewListFromItems(items) (l)
+//@   ensures fresh: l != nil && fresh(l) && len(l.Items) == len(items) && (len(items) > 0 ==> fresh(l.Items))
+//@   ensures same: forall k in [0, len(items)): l.Items[k] == old(items[k])
+//@   ensures src: arr(items) == old(arr(items))
+
+//@ func (*List).Copy(l) (r)
+//@   ensures fresh: r != nil && fresh(r) && r != l && len(r.Items) == len(l.Items) && (len(l.Items) > 0 ==> fresh(r.Items))
+//@   ensures same: forall k in [0, len(l.Items)): r.Items[k] == old(l.Items[k])
+//@   ensures src: l.Items == old(l.Items) && arr(l.Items) == old(arr(l.Items))
+
+//@ func (*List).M__iadd__(a, other) (r, err)
+//@   modifies a.Items, mem(a.Items)
+//@   ensures ni: !is(other, *List) ==> r == NotImplemented && err == nil && a.Items == old(a.Items)
+//@   ensures same: is(other, *List) ==> err == nil && is(r, *List) && r.(*List) == a
+//@   ensures len: is(other, *List) && other.(*List) != a ==> len(a.Items) == len(old(a.Items)) + len(old(other.(*List).Items))
+
+//@ func (*List).M__mul__(l, other) (r, err)
+//@   ensures ni: !isSmallInt(other) ==> r == NotImplemented && err == nil
+//@   ensures shape: isSmallInt(other) ==> err == nil && is(r, *List) && fresh(r.(*List)) && r.(*List) != l
+//@   ensures src: l.Items == old(l.Items) && (forall k in [0, len(l.Items)): l.Items[k] == old(l.Items[k]))
+
+//@ func (*List).M__imul__(a, other) (r, err)
+//@   modifies a.Items
+//@   ensures inplace: isSmallInt(other) ==> err == nil && is(r, *List) && r.(*List) == a
